@@ -469,6 +469,15 @@ theorem coop_atomic (opens closes : A → Bool) (sks : Nat → Sk) (hscan : ∀ 
   atomic_sections opens closes locals
     (fun j => by obtain ⟨o, ho⟩ := hrun j; exact sectionsAtomic_sound opens closes (sks j) (hscan j) _ o ho) g hs
 
+/-- every cooperative schedule is in particular an interleaving (so `lock_mutex` below also speaks about the event loop) -/
+theorem sched_is_inter : ∀ (cur : Option Nat) (rem : Nat → List Ev) (g : List (Nat × Ev)), Sched cur rem g → Inter rem g := by
+  intro cur rem g h
+  induction h with
+  | done => exact .done
+  | stepAct hrem _ _ ih => exact .step hrem ih
+  | stepAw hrem _ _ ih => exact .step hrem ih
+  | finish _ _ ih => exact ih
+
 /-! ### mutual exclusion from the lock shape -/
 
 theorem lock_mutex_aux (acq rel inner : A → Bool) : ∀ (rem : Nat → List Ev) (g : List (Nat × Ev)), Inter rem g →
